@@ -516,6 +516,27 @@ fn cut_char(k: usize, sibling: bool) -> Vec<u8> {
     b
 }
 
+/// PDFDocEncoding (ISO 32000-1 Annex D.2) on the characters used here: ASCII and U+00A1..U+00FF (except U+00AD) have
+/// their Latin-1 code; 0x80 bullet, 0x81 dagger, 0xA0 Euro sign.
+fn pdfdoc_char(code: u8) -> char {
+    match code {
+        0x80 => '\u{2022}',
+        0x81 => '\u{2020}',
+        0xA0 => '\u{20ac}',
+        c if c < 0x80 || (c >= 0xA1 && c != 0xAD) => c as char,
+        c => panic!("PDFDocEncoding code {c:#x} outside the supported domain"),
+    }
+}
+fn pdfdoc_code(c: char) -> u8 {
+    match c {
+        '\u{2022}' => 0x80,
+        '\u{2020}' => 0x81,
+        '\u{20ac}' => 0xA0,
+        c if (c as u32) < 0x80 || ((0xA1..=0xFF).contains(&(c as u32)) && c as u32 != 0xAD) => c as u32 as u8,
+        c => panic!("password character {c:?} outside the supported domain"),
+    }
+}
+
 /// The bytes of one password segment (segments are BYTE ranges of the prepared password: a multi-byte
 /// character may be split between two segments, see MC_SecurityAlgorithms.tla):
 ///   "lat"  Latin-1 letters;  Hkj  ASCII + first j bytes of the k-byte character;  Tkj  its other k-j bytes + ASCII;
@@ -526,6 +547,11 @@ fn seg_bytes(id: &str, len: usize) -> Vec<u8> {
         return "a\u{e9}\u{fc}".as_bytes().to_vec();
     }
     let b = id.as_bytes();
+    // c<code>_<code>..: the text whose PDFDocEncoding is these codes (revisions 2-4, SecurityAlgorithms!PrepR234)
+    if b.len() >= 2 && b[0] == b'c' && b[1].is_ascii_digit() {
+        let text: String = id[1..].split('_').map(|c| pdfdoc_char(c.parse::<u8>().expect("code in segment id"))).collect();
+        return text.into_bytes();
+    }
     let dig = |x: u8| (x as char).to_digit(10).map(|d| d as usize);
     if b.len() == 3 && b"HTUC".contains(&b[0]) {
         if let (Some(k), Some(j)) = (dig(b[1]), dig(b[2])) {
@@ -562,13 +588,7 @@ fn pw_string(segs: &Value) -> String {
 /// stringprep 0.1.5 returns them unchanged - probed).
 fn prep(r: i64, s: &str) -> Vec<u8> {
     if r <= 4 {
-        s.chars()
-            .map(|c| {
-                let u = c as u32;
-                assert!(u < 0x80 || (0xA1..=0xFF).contains(&u) && u != 0xAD, "password class outside the supported domain");
-                u as u8
-            })
-            .collect()
+        s.chars().map(pdfdoc_code).collect()
     } else {
         for c in s.chars() {
             let u = c as u32;
@@ -1072,6 +1092,7 @@ struct Out {
     user_empty: bool,
     user: Value,
     owner: Value,
+    hist: Value,
 }
 
 impl Out {
@@ -1084,6 +1105,7 @@ impl Out {
         o.insert("userEmpty".into(), json!(self.user_empty));
         o.entry("user").or_insert(self.user.clone());
         o.entry("owner").or_insert(self.owner.clone());
+        o.insert("hist".into(), self.hist.clone());
         self.out.put(&v);
     }
     fn obs(&mut self, obs: &str, role: &str, kind: &str, n: usize, bad: usize, note: &str) {
@@ -1602,6 +1624,23 @@ fn gen_one(out: &mut Out, line: &Line, g: &Group, rng: &mut Rng, huge: bool, dle
     }
 }
 
+/// Text conversions through the public API (a font dictionary's encoding, Document::encode_text) - what any earlier
+/// text editing in the same process does.
+fn disturb(hist: &[String]) {
+    let doc = Document::with_version("1.7");
+    for e in hist {
+        let font = dict(vec![
+            ("Type", name("Font")),
+            ("Subtype", name("Type1")),
+            ("BaseFont", name("Helvetica")),
+            ("Encoding", name(&format!("{e}Encoding"))),
+        ]);
+        let enc = font.get_font_encoding(&doc).unwrap_or_else(|err| panic!("no encoding {e}: {err}"));
+        let bytes = Document::encode_text(&enc, "a\u{20ac}\u{2022}\u{2020}\u{e9}\u{fc} z");
+        assert!(bytes.len() >= 3, "encode_text({e}) produced {bytes:?}");
+    }
+}
+
 // ====================================================================== main
 
 fn main() {
@@ -1615,6 +1654,10 @@ fn main() {
         println!("c06: known-answer tests passed");
         return;
     }
+    // History: before anything is judged, this process converts text with the named predefined one-byte encodings
+    // through the public API, in the given order (MC_SecurityAlgorithms!Disturb).  One process per order.
+    let hist: Vec<String> = arg(&args, "--hist").map(|h| h.split(',').filter(|x| !x.is_empty()).map(|x| x.to_string()).collect()).unwrap_or_default();
+    disturb(&hist);
     let seed = arg_u64(&args, "--seed", 1);
     let n = arg_u64(&args, "--n", 50) as usize;
     let (lines, groups) = load_terms(&arg(&args, "--terms").expect("--terms"));
@@ -1628,7 +1671,7 @@ fn main() {
             std::process::exit(2);
         }
     };
-    let mut out = Out { out: NdjsonOut::create(&outp), dir, doc: 0, cfg: json!({}), absent: false, user_empty: false, user: json!([]), owner: json!([]) };
+    let mut out = Out { out: NdjsonOut::create(&outp), dir, doc: 0, cfg: json!({}), absent: false, user_empty: false, user: json!([]), owner: json!([]), hist: json!(hist) };
     // the groups in a seeded order; n >= groups.len() visits every (configuration, password pair)
     let mut order: Vec<usize> = (0..groups.len()).collect();
     Rng::new(seed ^ 0xC06).shuffle(&mut order);
@@ -1644,6 +1687,13 @@ fn main() {
         }
     }
     front.extend(back);
+    if !hist.is_empty() {
+        // disturbed processes: first the groups whose passwords have characters on which the encodings differ
+        let sensitive = |g: &Group| [&g.user, &g.owner].iter().any(|p| p.as_array().map(|a| a.iter().any(|s| s["txt"].as_array().map(|t| !t.is_empty()).unwrap_or(false))).unwrap_or(false));
+        let (mut a, b): (Vec<usize>, Vec<usize>) = front.iter().partition(|gi| sensitive(&groups[**gi]));
+        a.extend(b);
+        front = a;
+    }
     for i in 0..n {
         let gi = front[i % front.len()];
         let g = &groups[gi];
